@@ -2,6 +2,8 @@ import NbioVerif.Lemmas.C08Meta
 import NbioVerif.Lemmas.C08Glue
 import NbioVerif.Lemmas.C08Engine
 import NbioVerif.Lemmas.C06Chain
+import NbioVerif.Lemmas.BodyReader
+import NbioVerif.Lemmas.BodyOwn
 /-! C08: parser robustness and bounds (model level).
 
 * `c08_no_hang`        the Go-shaped index loop never runs out of fuel (fuel = |buf|+1), i.e. the
@@ -22,8 +24,9 @@ import NbioVerif.Lemmas.C06Chain
   output) all parser events precede the closing observations, the connection / parser / OnClose are closed / run at
   most once (exactly once once sealed), and a sealed reader ignores everything the transport delivers afterwards;
   `c08_engine_error_seals_*` — a failing `Parse` seals the reader in the same step
-* `c08_silent_after_close` once the engine glue has closed the parser (`CloseAndClean` on error), no Parse call
+* `c08_parseE_silent`  once the engine glue has closed the parser (`CloseAndClean` on error), no Parse call
                        emits an event
+* `c08_body_reader_bound` the bytes a `BodyReader` holds never exceed MaxHTTPBodySize, along every program
 -/
 namespace Scan
 variable {σ ε : Type}
@@ -379,3 +382,58 @@ example :
   decide
 
 end HttpEngine
+
+namespace HttpBody
+
+/-- C08 (BodyReader): `append` refuses (ErrTooLong) exactly when the limit would be exceeded -/
+theorem c08_body_reader_limit (maxBody : Nat) (br : BR) (data : Bytes) (extra : Nat) :
+    (append maxBody br data extra = none ↔ data ≠ [] ∧ maxBody > 0 ∧ data.length + br.left > maxBody) :=
+  append_limit maxBody br data extra
+
+/-- C08 (BodyReader): with a limit set, the number of bytes held never exceeds it, for every program of appends and
+    reads -/
+theorem c08_body_reader_bound (maxBody : Nat) (hm : maxBody > 0) (ops : List Op) :
+    (content (ops.foldl (step maxBody) ({}, [], [])).1).length ≤ maxBody := by
+  suffices h : ∀ (br : BR) (app rd : Bytes), WF br → br.closed = false → br.left ≤ maxBody →
+      (ops.foldl (step maxBody) (br, app, rd)).1.left ≤ maxBody ∧ WF (ops.foldl (step maxBody) (br, app, rd)).1 by
+    have := h {} [] [] wf_init rfl (Nat.zero_le _)
+    rw [← this.2.left_eq]; exact this.1
+  induction ops with
+  | nil => intro br app rd hw _ hb; exact ⟨hb, hw⟩
+  | cons op ops ih =>
+    intro br app rd hw hc hb
+    simp only [List.foldl_cons]
+    cases op with
+    | append d extra =>
+      simp only [step]
+      cases ha : append maxBody br d extra with
+      | none => exact ih br app rd hw hc hb
+      | some r =>
+        obtain ⟨br', evs⟩ := r
+        obtain ⟨hw', _, hcl', _⟩ := append_spec maxBody br br' d extra evs hw ha
+        exact ih br' _ _ hw' (by rw [hcl', hc]) (append_bound maxBody hm br br' d extra evs hb ha)
+    | read n =>
+      simp only [step]
+      obtain ⟨br', evs, e, hw', hc', hcl'⟩ := read_spec br n hw hc
+      rw [e]
+      refine ih br' _ _ hw' hcl' ?_
+      rw [hw'.left_eq, hc', List.length_drop]
+      have := hw.left_eq
+      omega
+
+/-- C08 (BodyReader and its allocator): along every program of appends, reads and closes — any order, any sizes, any
+    allocator capacities, appends after `Close` included — every buffer identity is returned to the allocator at most
+    once, only identities the allocator handed out are returned, none is handed out twice, and nothing the reader
+    still holds has been returned (no use after free through `Read` / `RawBodyBuffers`). -/
+theorem c08_body_free_once (maxBody : Nat) (ops : List Op2) :
+    let s := ops.foldl (step2 maxBody) ({}, [])
+    (freesOf s.2).Nodup ∧ (∀ i ∈ freesOf s.2, i ∈ mallocsOf s.2) ∧ (mallocsOf s.2).Nodup ∧
+      (∀ i ∈ ids s.1, i ∉ freesOf s.2) :=
+  free_once maxBody ops
+
+/-- C08 (BodyReader): the first `Close` returns everything the reader holds -/
+theorem c08_body_close_releases (br : BR) (hc : br.closed = false) :
+    freesOf (close br).2 = ids br ∧ ids (close br).1 = [] :=
+  close_releases br hc
+
+end HttpBody
